@@ -31,6 +31,16 @@ def run(res, tier, seed, replay):
                    ("softrej", 255, "sync", "release", 400 * n)]
         r2, hangs = ss.run_streams(streams, seed + 41, render=True)
         recs += r2
+    # ---- cascades of learnt clauses derived from one another, solved on a 256 KiB stack: recursion over the chain shows as a crash
+    if not replay:
+        try:
+            dom, dh = ss.run_streams([("domino", 6000 if tier == "quick" else 20000, "sync", "debug", 2 if tier == "quick" else 4)], seed + 53,
+                                     render=True, extra_args=["--stack-kb", "256"])
+            recs += dom
+            hangs += dh
+        except vlib.HarnessCrash as e:
+            res.violation("stack-overflow-on-learnt-chain", f"the solver process died on a cascade of learnt clauses (class domino, 256 KiB stack): {str(e)[:300]}",
+                          {"class": "domino", "extra_args": ["--stack-kb", "256"], "error": str(e)[:1000]})
     # ---- the hypotheses of C04_requires_assert_cannot_fail on real runs (hook logs; hinted universes reach the guarded path)
     from props import enctie
     if replay:
